@@ -4,6 +4,7 @@ import (
 	"bytes"
 	"context"
 	"fmt"
+	"net"
 	"os"
 	"path/filepath"
 	"time"
@@ -34,6 +35,8 @@ func (a *rawAttached) HostToPlugin(n, ad string) (string, string, error) { retur
 //	broker-eos  (C07) the plugin opens 4 brokered servers, announces them on the broker stream and ends that stream at
 //	            once; the host dials all four inside the window: each connection is answered by its id's server
 //	broker-emptyknock  like broker-eos with the stream kept open, every announcement carrying an empty knock sub-message
+//	broker-late-eos    the HOST accepts id 9; the plugin receives the announcement, ends the broker stream, dials, and keeps
+//	            calling: every call is answered by the server accepted on id 9
 //	stdio-big   (C11) the plugin forwards its output in chunks of whatever size read() returned (1000 B, 100 B, 64 KiB,
 //	            10 B ...): every byte arrives on the right sync writer, in order
 func init() {
@@ -50,6 +53,7 @@ func init() {
 			var opts plugin.VRawPluginOpts
 			var wantOut, wantErr []byte
 			ready := make(chan error, 1)
+			hostInfo := make(chan plugin.VRawConnInfo, 1)
 			var mainLn interface {
 				Addr() interface{ String() string }
 			}
@@ -81,6 +85,16 @@ func init() {
 							wantOut = append(wantOut, d...)
 						} else {
 							wantErr = append(wantErr, d...)
+						}
+					}
+				}
+				if p["mode"] == "broker-late-eos" {
+					// the plugin waits for the host's announcement of id 9, ends the broker stream (it has what it needs) and dials
+					opts.EndAfterHostInfo = true
+					opts.OnHostInfo = func(ci plugin.VRawConnInfo) {
+						select {
+						case hostInfo <- ci:
+						default:
 						}
 					}
 				}
@@ -148,6 +162,47 @@ func init() {
 						}
 					})
 				}
+			case "broker-late-eos":
+				d := newDone(x)
+				x.Put("d", d)
+				x.Go("host", func() { // serves until the broker is closed
+					gp.cb.AcceptAndServe(9, func(o []grpc.ServerOption) *grpc.Server {
+						s := grpc.NewServer(o...)
+						grpctest.RegisterPingPongServer(s, &ppServer{tag: "host-9"})
+						return s
+					})
+				})
+				d.goIn("plugin", "raw-dial9", func() {
+					var ci plugin.VRawConnInfo
+					select {
+					case ci = <-hostInfo:
+					case <-time.After(8 * time.Second):
+						failT(x, "the hand-written plugin never received the host's announcement of id 9")
+						return
+					}
+					cc, err := grpc.Dial("passthrough:///raw", grpc.WithInsecure(), grpc.WithContextDialer(func(ctx context.Context, _ string) (net.Conn, error) {
+						return vnet.Dial(ci.Network, ci.Address)
+					}))
+					if err != nil {
+						failT(x, "raw dial: %v", err)
+						return
+					}
+					defer cc.Close()
+					for k := 0; k < 4; k++ { // the first call, then more after the negotiation stream has long ended
+						ctx, cancel := context.WithTimeout(context.Background(), 8*time.Second)
+						tag, err := pingTag(ctx, cc)
+						cancel()
+						x.Obs("raw call %d err=%v tag=%s", k, err != nil, tag)
+						if err != nil {
+							failT(x, "call %d on the connection the plugin dialled for id 9 (the broker stream had ended): %v", k+1, err)
+							return
+						}
+						if tag != "host-9" {
+							x.Fail("S", "misrouted: the connection dialled for id 9 was answered by %q", tag)
+						}
+						x.Pause(1500 * time.Millisecond)
+					}
+				})
 			case "stdio-big":
 				for i := 0; i < 200 && (so.Len() < len(wantOut) || se.Len() < len(wantErr)); i++ {
 					x.Pause(100 * time.Millisecond)
